@@ -119,7 +119,7 @@ def bounded(pr):
              ('1HPX', ['B', 'A']), ('1HPX:blankB', [' ']), ('1HPX:blankB', [' ', 'A'])]
     if pr.tier == 'thorough':
         cases += [('3SGB', ['E']), ('3SGB', ['I']), ('3SGB', ['E', 'I']), ('1HPX', ['A', 'B'])]
-    variants = ['asis', 'noter', 'lower', 'split']
+    variants = ['asis', 'noter', 'lower', 'split', 'ionpairs']
     for name, sel in cases:
         base = native.pdb_lines(name.split(':')[0])
         if name.endswith(':blankB'):
@@ -141,6 +141,23 @@ def bounded(pr):
                     x = lines[mid - 1]
                     het = 'HETATM 9990 ZN    ZN Z 900    ' + x[30:54].replace(x[30:38], '%8.3f' % (float(x[30:38]) + 25.0), 1) + '  1.00  0.00          ZN  \n'
                     lines = lines[:mid] + [het] + lines[mid:]
+            if v == 'ionpairs':
+                # hetero groups listed by kind at the end of the file: an ion of each chain with the SAME residue name and number in
+                # consecutive records (CL x 300 of the selected chain right before / after CL y 300 of another chain)
+                chs = sorted({l[21] for l in lines if l[:6] == 'ATOM  '})
+                anchor = {}
+                for l in lines:
+                    if l[:6] == 'ATOM  ' and l[12:16] == ' CA ':
+                        anchor.setdefault(l[21], l)
+                ions = []
+                for k_, c in enumerate(chs + chs[::-1]):
+                    a = anchor[c]
+                    ions.append('HETATM%5d CL    CL %s 300    %8.3f%s  1.00  0.00          CL  \n' % (
+                        9900 + k_, c, float(a[30:38]) + 3.5 + (4.0 if k_ >= len(chs) else 0.0), a[38:54]))
+                    if k_ >= len(chs):
+                        ions[-1] = ions[-1][:22] + ' 301' + ions[-1][26:]
+                ions = ions[:len(chs)] + ions[len(chs):]
+                lines = [l for l in lines if not l.startswith(('END', 'MASTER', 'CONECT'))] + ions
             if v == 'split':
                 # the last 40 records of the first selected chain are moved to the end of the file (after every other chain)
                 mine = [i for i, l in enumerate(lines) if l[:6] in ('ATOM  ', 'HETATM') and l[21] == sel[0]]
